@@ -25,7 +25,12 @@ func newFamilyNode(document *Document, pointer string, children ...Node) *Family
 // since they were found.
 func (node *FamilyNode) validateCache() {
 	if generation := currentEditGeneration(); node.cacheGeneration != generation {
-		node.resetCache()
+		// Nothing is written when nothing has been cached yet so that several
+		// goroutines reading a new document do not undo each others work.
+		if node.cachedHusband || node.cachedWife {
+			node.resetCache()
+		}
+
 		node.cacheGeneration = generation
 	}
 }
